@@ -16,6 +16,8 @@ use std::panic::{AssertUnwindSafe, catch_unwind};
 pub enum Op {
     New { id: u32, task: u8, fam: usize, role: Role, key: Vec<u8>, fixed: bool },
     Clone { id: u32, task: u8, src: u32 },
+    /// `dst.clone_from(&src)` on two live instances of the same family and role: dst is re-keyed in place
+    CloneFrom { id: u32, task: u8, src: u32 },
     Conv { id: u32, task: u8, src: u32, to: Role, by_ref: bool },
     Relocate { id: u32, task: u8, off: u8 },
     Drop { id: u32, task: u8 },
@@ -30,6 +32,7 @@ impl Op {
         match self {
             Op::New { .. } => "new",
             Op::Clone { .. } => "clone",
+            Op::CloneFrom { .. } => "clone_from",
             Op::Conv { .. } => "conv",
             Op::Relocate { .. } => "relocate",
             Op::Drop { .. } => "drop",
@@ -43,6 +46,7 @@ impl Op {
         match self {
             Op::New { task, .. }
             | Op::Clone { task, .. }
+            | Op::CloneFrom { task, .. }
             | Op::Conv { task, .. }
             | Op::Relocate { task, .. }
             | Op::Drop { task, .. }
@@ -55,6 +59,7 @@ impl Op {
             Op::New { id, task, fam, role, key, fixed } => json!({"op":"new","id":id,"task":task,
                 "family":reg.families[*fam].name,"role":role.name(),"key":hex(key),"ctor": if *fixed {"new"} else {"new_from_slice"}}),
             Op::Clone { id, task, src } => json!({"op":"clone","id":id,"task":task,"src":src}),
+            Op::CloneFrom { id, task, src } => json!({"op":"clone_from","id":id,"task":task,"src":src}),
             Op::Conv { id, task, src, to, by_ref } => json!({"op":"conv","id":id,"task":task,"src":src,
                 "to":to.name(),"by": if *by_ref {"ref"} else {"value"}}),
             Op::Relocate { id, task, off } => json!({"op":"relocate","id":id,"task":task,"off":off}),
@@ -79,6 +84,7 @@ impl Op {
                 fixed: s("ctor")? == "new",
             },
             "clone" => Op::Clone { id: u("id")? as u32, task: u("task")? as u8, src: u("src")? as u32 },
+            "clone_from" => Op::CloneFrom { id: u("id")? as u32, task: u("task")? as u8, src: u("src")? as u32 },
             "conv" => Op::Conv {
                 id: u("id")? as u32,
                 task: u("task")? as u8,
@@ -409,6 +415,7 @@ stats_struct!(
     skipped,
     op_new,
     op_clone,
+    op_clone_from,
     op_conv_ref,
     op_conv_val,
     op_relocate,
@@ -685,7 +692,7 @@ impl<'a> World<'a> {
         // storage the operation may legitimately write: that of the instances it names (before and after)
         let named: Vec<u32> = match op {
             Op::New { id, .. } | Op::Relocate { id, .. } | Op::Drop { id, .. } | Op::Call { id, .. } => vec![*id],
-            Op::Clone { id, src, .. } | Op::Conv { id, src, .. } => vec![*id, *src],
+            Op::Clone { id, src, .. } | Op::CloneFrom { id, src, .. } | Op::Conv { id, src, .. } => vec![*id, *src],
             Op::Repeat { step } => match self.calls.get(step) {
                 Some((Op::Call { id, .. }, _)) => vec![*id],
                 _ => vec![],
@@ -865,6 +872,63 @@ impl<'a> World<'a> {
                     Inst { id: *id, fam: s.fam, role: s.role, key: s.key.clone(), route, reals, parent: Some(*src), source_dropped: false, relocated: false },
                 );
                 Ok(StepOut { applied: true, out: vec![s.fam as u8] })
+            }
+            Op::CloneFrom { id, src, .. } => {
+                if id == src {
+                    return skip();
+                }
+                let (d, s) = match (self.insts.get(id), self.insts.get(src)) {
+                    (Some(d), Some(s)) => (d.clone(), s.clone()),
+                    _ => return skip(),
+                };
+                if d.fam != s.fam || d.role != s.role {
+                    return skip();
+                }
+                let mut done = 0;
+                for rd in &d.reals {
+                    // the realisation of the same build variant and type in the source
+                    let rs = match s.reals.iter().find(|x| x.vidx == rd.vidx && x.ty == rd.ty) {
+                        Some(x) => x,
+                        None => continue,
+                    };
+                    let t = &self.reg.types[rd.ty];
+                    let f = match t.clone_from {
+                        Some(f) => f,
+                        None => continue,
+                    };
+                    let (ps, pd) = (self.slots.ptr(rs.slot) as *const u8, self.slots.ptr(rd.slot));
+                    if let Err(e) = guard(|| unsafe { f(ps, pd) }) {
+                        return Err(self.viol("C12", "clone-from-panicked", d.fam, t.variant, e, &[], &[]));
+                    }
+                    if t.detect && self.mask {
+                        self.stats.r_soft_arm_clone += 1;
+                    }
+                    done += 1;
+                }
+                if done == 0 {
+                    return skip();
+                }
+                // realisations the source lacks cannot follow: drop them so the bundle stays consistent
+                let keep: Vec<Real> = d.reals.iter().filter(|rd| s.reals.iter().any(|x| x.vidx == rd.vidx && x.ty == rd.ty) && self.reg.types[rd.ty].clone_from.is_some()).cloned().collect();
+                for rd in d.reals.iter().filter(|rd| !keep.iter().any(|k| k.slot == rd.slot)) {
+                    let t = &self.reg.types[rd.ty];
+                    let p = self.slots.ptr(rd.slot);
+                    let _ = guard(|| unsafe { (t.drop)(p) });
+                    self.slots.free(rd.slot);
+                }
+                self.stats.op_clone_from += 1;
+                // the instance now holds another key: calls recorded for Repeat no longer describe it
+                let dst = *id;
+                self.calls.retain(|_, (c, _)| !matches!(c, Op::Call { id, .. } if *id == dst));
+                let mut route = s.route.clone();
+                route.push(RouteStep::Clone);
+                let inst = self.insts.get_mut(id).unwrap();
+                inst.reals = keep;
+                inst.key = s.key.clone();
+                inst.route = route;
+                inst.parent = Some(*src);
+                inst.source_dropped = false;
+                Ok(StepOut { applied: true, out: vec![s.fam as u8, 0xCF] })
             }
             Op::Conv { id, src, to, by_ref, .. } => {
                 if self.insts.contains_key(id) || *to == Role::Enc {
